@@ -30,7 +30,7 @@ use std::sync::{Arc, Mutex};
 use std::time::Duration;
 
 #[derive(Clone, Debug)]
-enum FileSt { NoFile, Ok(String), Unreadable, Unparsable }
+enum FileSt { NoFile, Ok(String), Unreadable, Unparsable, Blank }
 #[derive(Clone, Debug)]
 enum Rep { NoReply, Other, Trk(Trk) }
 #[derive(Clone, Debug)]
@@ -64,17 +64,18 @@ fn parse_iter(t: &[&str]) -> Option<It> {
         "fnone" => (FileSt::NoFile, &t[5..]),
         "funread" => (FileSt::Unreadable, &t[5..]),
         "fbad" => (FileSt::Unparsable, &t[5..]),
+        "fblank" => (FileSt::Blank, &t[5..]),
         "fok" if is_dec(t[5]) => (FileSt::Ok(t[5].to_string()), &t[6..]),
         _ => return None,
     };
     let reply = match rest {
         ["none"] => Rep::NoReply,
         ["other"] => Rep::Other,
-        ["trk", f @ ..] if f.len() == 7 => {
+        ["trk", f @ ..] if f.len() == 7 || f.len() == 8 => {
             let v: Option<Vec<i64>> = f.iter().map(|s| n(s)).collect();
             let v = v?;
             if v[1] < 0 { return None; }
-            Rep::Trk(Trk { leap: v[0] as u16, ref_ns: v[1], off: v[2] as u32, disp: v[3] as u32, delay: v[4] as u32, interval: v[5] as u32, refid: v[6] as u32 })
+            Rep::Trk(Trk { leap: v[0] as u16, ref_ns: v[1], off: v[2] as u32, disp: v[3] as u32, delay: v[4] as u32, interval: v[5] as u32, refid: v[6] as u32, ip4: v.get(7).map(|x| *x as u32) })
         }
         _ => return None,
     };
@@ -110,6 +111,7 @@ fn set_file(path: &std::path::Path, st: &FileSt) {
     match st {
         FileSt::Ok(v) => std::fs::write(path, format!("{}\n", v)).unwrap(),
         FileSt::Unparsable => std::fs::write(path, "not_an_i64\n").unwrap(),
+        FileSt::Blank => std::fs::write(path, "  \n").unwrap(),
         FileSt::Unreadable | FileSt::NoFile => { let _ = std::fs::remove_file(path); }
     }
 }
@@ -225,13 +227,16 @@ const G: i64 = 5_000_000_000;
 const PHC0: u32 = 0x5048_4330;
 
 fn trk_text(t: &Trk) -> String {
-    format!("trk {} {} {} {} {} {} {}", t.leap, t.ref_ns, t.off, t.disp, t.delay, t.interval, t.refid)
+    match t.ip4 {
+        None => format!("trk {} {} {} {} {} {} {}", t.leap, t.ref_ns, t.off, t.disp, t.delay, t.interval, t.refid),
+        Some(a) => format!("trk {} {} {} {} {} {} {} {}", t.leap, t.ref_ns, t.off, t.disp, t.delay, t.interval, t.refid, a),
+    }
 }
 fn iter_text(as_of: i64, t_reply: i64, t_grace: i64, file: &str, reply: &str) -> String {
     format!("{} {} {} {} {} {}", as_of.div_euclid(1_000_000_000), as_of.rem_euclid(1_000_000_000), t_reply, t_grace, file, reply)
 }
 fn simple_trk(refid: u32) -> Trk {
-    Trk { leap: 0, ref_ns: 1_700_000_000_000_000_000, off: 0x0200_0000 | 0x000a_0000, disp: 0x0400_0000 | 0x00b0_0000, delay: 0x0600_0000 | 0x00c0_0000, interval: (4u32 << 25) | (1 << 23), refid }
+    Trk { leap: 0, ref_ns: 1_700_000_000_000_000_000, off: 0x0200_0000 | 0x000a_0000, disp: 0x0400_0000 | 0x00b0_0000, delay: 0x0600_0000 | 0x00c0_0000, interval: (4u32 << 25) | (1 << 23), refid, ip4: None }
 }
 
 /// deterministic boundary grid: the 5 s threshold +-1 ns after an answer and at start-up, both
@@ -278,6 +283,41 @@ pub fn grid() -> Vec<String> {
                 for f in ["fok 12345", "funread"] {
                     v.push(format!("poll {} phc {} ; {}", t0, PHC0, iter_text(a, a, a + 1000, f, &trk_text(&simple_trk(rep)))));
                 }
+            }
+        }
+        if t0 == 0 {
+            // the report's source address spells the reference id (or anything else): irrelevant to the match
+            for ip in [PHC0, 0, 1, u32::MAX] {
+                for f in ["fok 12345", "funread"] {
+                    let t = Trk { ip4: Some(ip), ..simple_trk(PHC0) };
+                    v.push(format!("poll {} phc {} ; {}", t0, PHC0, iter_text(a, a, a + 1000, f, &trk_text(&t))));
+                }
+            }
+            // an empty / whitespace-only sysfs attribute is not a number
+            v.push(format!("poll {} phc {} ; {} ; {}", t0, PHC0, iter_text(a, a, a, "fblank", &trk_text(&simple_trk(PHC0))), iter_text(a + 1, a + 1, a + 1, "fok 1", &trk_text(&simple_trk(PHC0)))));
+            // a reference time in the future, with and without a matching PHC: passed on untouched
+            for (cfg, f) in [(Some(PHC0), "fok 12345"), (Some(PHC0 + 1), "fok 12345"), (None, "fnone")] {
+                for lead in [2_000_000_000i64, 3_600_000_000_000] {
+                    let t = Trk { ref_ns: 1_700_000_000_000_000_000 + lead, ..simple_trk(PHC0) };
+                    let head = match cfg { Some(c) => format!("poll {} phc {}", t0, c), None => format!("poll {} nophc", t0) };
+                    v.push(format!("{} ; {}", head, iter_text(a, a, a + 1000, f, &trk_text(&t))));
+                }
+            }
+            // consecutive polls with the SAME report while the PHC's own bound changes / becomes unreadable
+            let same = trk_text(&simple_trk(PHC0));
+            v.push(format!("poll {} phc {} ; {} ; {} ; {} ; {}", t0, PHC0,
+                iter_text(a, a, a, "fok 1000", &same), iter_text(a + G, a + G, a + G, "fok 25000", &same),
+                iter_text(a + 2 * G, a + 2 * G, a + 2 * G, "fok 400000", &same), iter_text(a + 3 * G, a + 3 * G, a + 3 * G, "funread", &same)));
+            // outages of k * 2^32 ms (49.7 days): the age must not be truncated
+            let w: i64 = 4_294_967_296 * 1_000_000;
+            for k in [1i64, 2] {
+                for d in [-1i64, 0, 1, 2_500_000_000, G - 1, G, 100 * G] {
+                    for s in sil {
+                        v.push(format!("poll {} nophc ; {} ; {}", t0, iter_text(a, a, a, "fnone", &trk_text(&simple_trk(0))), iter_text(a + 1, 0, a + k * w + d, "fnone", s)));
+                    }
+                }
+                v.push(format!("poll {} phc {} ; {} ; {}", t0, PHC0, iter_text(a, a, a, "fok 5", &trk_text(&simple_trk(PHC0))),
+                    iter_text(a + 1, a + k * w, a + k * w + 1_000_000, "funread", &trk_text(&simple_trk(PHC0)))));
             }
         }
         // PHC read failure with a slow sysfs read: the grace read 5 s -1/0/+1 ns after the reply
